@@ -45,7 +45,7 @@ QUICK = [
      TRACEP - {"C14", "C15", "C16", "C20"}, False, None),
     ("shapesst", "explore", ["shapes", "cmp=both", "levels=f1/dbf1/-", "paths=4", "steps=0"], {"C15", "C16"}, False, None),
     ("shapesfl", "explore", ["shapes", "cmp=both", "levels=-/bdk/-", "paths=4", "steps=0"], {"C16"}, False, None),
-    ("shapesdc", "explore", ["shapes", "levels=p4/dbp4", "paths=4", "steps=0"], {"C14"}, False, None),
+    ("shapesdc", "explore", ["shapes", "levels=p8/dbp8", "paths=4", "steps=0"], {"C14"}, False, None),
     ("big", "big", ["sizes=12,24,48,120,1200", "full=12"], {"C19"}, False, BIGPROPS),
 ]
 
